@@ -168,10 +168,10 @@ sdp_msg_sec_chk(uint8_t *sdp_msg, size_t sdp_msg_size) {
 	/* 3, 4. */
 	msg_max = (sdp_msg + sdp_msg_size);
 	for (ptm = sdp_msg; ptm < msg_max; ptm ++) {
+		if ((*ptm) > 126) /* Before the > 31 test: it was dead code after it. */
+			return (3); /* Control codes. */
 		if ((*ptm) > 31 || (*ptm) == '\t') /* XXX: tab? */
 			continue;
-		if ((*ptm) > 126)
-			return (3); /* Control codes. */
 		if ((*ptm) != '\r' || ((ptm + 1) < msg_max && (*(ptm + 1)) != '\n'))
 			return (3); /* Control codes. */
 		ptm ++; /* Skeep: CRLF. (point to LF) */
